@@ -41,6 +41,9 @@ fn kinds() -> Vec<(&'static str, Vec<Cls>)> {
         ("counts(1,1)-totals(4,4)", vec![G1, G0, G1, G0]),
         ("counts(1,1)-totals(2,4)", vec![G1, Missing, G1, G0]),
         ("counts(1,1)-totals(4,2)", vec![G1, G0, G1, Missing]),
+        ("insufficient-p0-with-multiallelic", vec![Multi, Missing, G1, G2]),
+        ("insufficient-p1-with-multiallelic", vec![G1, G2, Multi, Multi]),
+        ("multiallelic-het-p1", vec![G0, G1, G1, Multi]),
     ]
 }
 
@@ -259,7 +262,9 @@ fn vcf_of(rows: &[&Vec<Cls>], same_pos: bool) -> Vec<u8> {
             cs.push_gts(&gts);
         }
         let last = cs.records.len() - 1;
-        cs.records[last].alts = vec!["C", "G", "T"];
+        // one ALT allele unless a multiallelic genotype needs more: neighbouring records then differ
+        // in their number of alleles
+        cs.records[last].alts = if row.iter().any(|c| *c == Cls::Multi) { vec!["C", "G", "T"] } else { vec!["C"] };
         // `same_pos`: every record at position 100, alternating between the two contigs
         cs.records[last].pos = if same_pos { 100 } else { 100 + i };
         if same_pos {
@@ -275,9 +280,16 @@ fn cli_create(rows: &[&Vec<Cls>], project: bool, scratch: &Scratch) -> Result<Re
 }
 
 fn cli_create_at(rows: &[&Vec<Cls>], project: bool, same_pos: bool, scratch: &Scratch) -> Result<RefArray, String> {
+    cli_create_with(rows, project, same_pos, "", scratch)
+}
+
+fn cli_create_with(rows: &[&Vec<Cls>], project: bool, same_pos: bool, verbosity: &str, scratch: &Scratch) -> Result<RefArray, String> {
     let vcf = vcf_of(rows, same_pos);
     let sarg = sample_arg(&MAP);
     let mut args = vec!["create", "-s", &sarg];
+    if !verbosity.is_empty() {
+        args.push(verbosity);
+    }
     if project {
         args.extend(["--project-shape", "3,3", "--precision", "12"]);
     }
@@ -399,9 +411,9 @@ pub fn run(tier: Tier) -> i32 {
 
     // L2
     let scratch = Scratch::new("c11");
-    let pick: Vec<&Vec<Cls>> = [1usize, 5, 8, 9, 11, 12, 13].iter().map(|&i| &ks[i].1).collect();
+    let pick: Vec<&Vec<Cls>> = [1usize, 5, 8, 9, 11, 12, 15, 17].iter().map(|&i| &ks[i].1).collect();
     let np = pick.len();
-    let perms: Vec<Vec<usize>> = if tier.thorough() { permutations(np) } else { permutations(np).into_iter().step_by(21).collect() };
+    let perms: Vec<Vec<usize>> = if tier.thorough() { permutations(np) } else { permutations(np).into_iter().step_by(167).collect() };
     let mut l2jobs: Vec<(Vec<usize>, bool)> = Vec::new();
     for p in &perms {
         for proj in [false, true] {
@@ -409,6 +421,7 @@ pub fn run(tier: Tier) -> i32 {
         }
     }
     let base: Vec<Result<RefArray, String>> = [false, true].iter().map(|&p| cli_create(&pick, p, &scratch)).collect();
+    let scratch_ref = &scratch;
     let res = par_map(l2jobs.len(), |i| {
         let (p, proj) = &l2jobs[i];
         let rows: Vec<&Vec<Cls>> = p.iter().map(|&j| pick[j]).collect();
@@ -431,6 +444,20 @@ pub fn run(tier: Tier) -> i32 {
             (Ok(x), Ok(y)) => x.shape == y.shape && x.data.iter().zip(&y.data).all(|(a, c)| if *proj { (a - c).abs() <= 1e-9 } else { a == c }),
             _ => false,
         };
+        // the same order at trace verbosity: per-record bookkeeping that exists only for logging
+        // must not leak from one record into the next
+        let got_vv = cli_create_with(&rows, *proj, false, "-vv", scratch_ref);
+        let vv_ok = match (&got_vv, b) {
+            (Ok(x), Ok(y)) => x.shape == y.shape && x.data.iter().zip(&y.data).all(|(a, c)| (a - c).abs() <= 1e-9),
+            _ => false,
+        };
+        if !vv_ok {
+            return Some((
+                format!("C11|cli|permutation-changes-result|-vv|{}", if *proj { "project" } else { "no-projection" }),
+                format!("records in order {p:?} with -vv give {got_vv:?}, in input order without the flag {b:?}"),
+                J::obj([("kind", J::s("c11-perm-vv")), ("order", J::usizes(p)), ("project", J::Bool(*proj))]),
+            ));
+        }
         if ok {
             None
         } else {
@@ -628,7 +655,7 @@ pub fn run(tier: Tier) -> i32 {
         });
     }
     rep.part(Part {
-        name: "cli: permutations and split points of a 7-record VCF (one record without a GT key, one with extra INFO/FORMAT fields), also with all records at one POS on alternating contigs".into(),
+        name: "cli: permutations and split points of an 8-record VCF (one record without a GT key, one with extra INFO/FORMAT fields, records with one and with three ALT alleles), also with all records at one POS on alternating contigs and at trace verbosity".into(),
         evaluations: (l2jobs.len() + 3 * n_split) as u64,
         nontrivial: (l2jobs.len() + 3 * n_split) as u64,
         note: format!("{} permutations x {{no projection, --project-shape 3,3}}; {} split points (create(a)+create(b) = create(a||b))", perms.len(), n_split),
@@ -672,16 +699,24 @@ pub fn replay(case: &J) -> Option<Vec<String>> {
                     .collect(),
             )
         }
-        "c11-perm" | "c11-split" => {
+        "c11-perm" | "c11-split" | "c11-perm-vv" => {
             let ks = kinds();
-            let pick: Vec<&Vec<Cls>> = [1usize, 5, 8, 9, 11, 12, 13].iter().map(|&i| &ks[i].1).collect();
+            let pick: Vec<&Vec<Cls>> = [1usize, 5, 8, 9, 11, 12, 15, 17].iter().map(|&i| &ks[i].1).collect();
             let order = case.get("order")?.as_usizes()?;
             let proj = matches!(case.get("project"), Some(J::Bool(true)));
             let scratch = Scratch::new("c11r");
             let rows: Vec<&Vec<Cls>> = order.iter().map(|&j| pick[j]).collect();
             let whole = cli_create(&rows, proj, &scratch);
             let tol = if proj { 1e-9 } else { 0.0 };
-            if case.get("kind")?.as_str()? == "c11-perm" {
+            if case.get("kind")?.as_str()? == "c11-perm-vv" {
+                let base = cli_create(&pick, proj, &scratch);
+                let vv = cli_create_with(&rows, proj, false, "-vv", &scratch);
+                let ok = match (&vv, &base) {
+                    (Ok(x), Ok(y)) => x.shape == y.shape && x.data.iter().zip(&y.data).all(|(a, c)| (a - c).abs() <= 1e-9),
+                    _ => false,
+                };
+                Some(if ok { vec![] } else { vec![format!("C11|cli|permutation-changes-result|-vv :: order {order:?}: {vv:?} vs input order {base:?}")] })
+            } else if case.get("kind")?.as_str()? == "c11-perm" {
                 let base = cli_create(&pick, proj, &scratch);
                 let ok = match (&whole, &base) {
                     (Ok(x), Ok(y)) => x.shape == y.shape && x.data.iter().zip(&y.data).all(|(a, c)| (a - c).abs() <= tol),
